@@ -144,7 +144,7 @@ U("cJSON_Delete", "cjson", "harness/cJSON_Delete.c", tiers=(), enforce="cJSON_De
 
 # ---------------------------------------------------------------- cJSON.c : byte-writing loops (bounded units)
 U("parse_string_b", "cjson", "harness/parse_string_b.c", no_contract=True, shape="B", bound="input <= 8 bytes (quick) / 12 (thorough)", funcs=["parse_string", "utf16_literal_to_utf8", "parse_hex4"],
-  props=["C01", "C02", "C03", "C08"], covers=3, unwind=14, tdefs={"quick": ["-DPS_N=8"], "thorough": ["-DPS_N=12"]}, tunwind={"quick": 14, "thorough": 18}, timeout=(900, 3000),
+  props=["C01", "C02", "C03", "C08", "C10"], covers=3, unwind=14, tdefs={"quick": ["-DPS_N=8"], "thorough": ["-DPS_N=12"]}, tunwind={"quick": 14, "thorough": 18}, timeout=(900, 3000),
   note="all byte strings up to the bound, all truncation points; compared with a reference decoder written from RFC 8259")
 U("print_string_ptr_b", "cjson", "harness/print_string_ptr_b.c", no_contract=True, shape="B", bound="string <= 4 bytes (quick) / 6 (thorough)", funcs=["print_string_ptr", "ensure"],
   props=["C04", "C05", "C08", "C09"], covers=3, tdefs={"quick": ["-DPSP_N=4"], "thorough": ["-DPSP_N=6"]}, tunwind={"quick": 32, "thorough": 44}, timeout=(900, 3000),
